@@ -13,6 +13,24 @@ CHECKS = {
    note='Trusted: z3; cyx transliteration (validated against the compiled kernels); symnp/symsparse stubs; integers do not wrap within the bound; '
         'doubles as reals. Bound: L<=4, blocks<=3x3, nnz/level<=3.',
    technique='symbolic execution of transliterated Cython + z3 (LIA/NIA) with replay'),
+ 'C02': dict(
+   category='other', design_ref='4/C02',
+   text='Bounded symbolic verification: the transliterated bspline_cy kernels (findspan, active_deriv) and the Python routes '
+        '(single_ev, active_ev, collocation(_derivs)(_info), compute_values_derivs) are executed with the evaluation point and, up to p=3/4, '
+        'the whole open knot vector as real solver variables; z3 (NRA) proves equality with the Cox-de Boor recursion, locality, '
+        'non-negativity, partition of unity and vanishing derivative sums for every real point including knots and end points.',
+   note='Trusted: z3, cyx transliteration (validated against compiled kernels), oracle recursion in checks/bsp_oracle.py, doubles as reals. '
+        'Bound: symbolic knots p<=3 (quick)/4 (thorough); concrete rational knots p<=8 (quick)/12; derivative orders <=p+2.',
+   technique='symbolic execution of transliterated Cython + z3 (QF_NRA) vs recursive oracle'),
+ 'C06': dict(
+   category='translation_validation', design_ref='4/C06',
+   text='Per-program translation validation: each form of a fixed corpus and of a seeded bounded grammar is built and finalised by the real '
+        'vform module (source exec\'d from /repo); z3 decides D[[original]] = D[[after add()]] = D[[after finalize()]] for all environments '
+        '(geometry jets with det J != 0, field jets, parameters, basis jets), plus definition-before-use of the emitted variable order. '
+        'Counterexample models are replayed numerically on the real pyiga.vform.',
+   note='Trusted: z3, vfsem denotational semantics (own code, chain rule via abstract inverse Jacobian), builtin functions uninterpreted, '
+        'reals for doubles except constant-only subexpressions. Undecided programs (solver timeout) are listed, not counted.',
+   technique='translation validation per program with z3 (QF_NRA+UF) over a denotational semantics'),
 }
 
 NA = {
